@@ -95,17 +95,17 @@ type Settlement struct {
 
 // Ledger is the prediction for one transition (DESIGN 9.C) next to what was observed.
 type Ledger struct {
-	ExpBal    map[string]*big.Int // expected balance delta by address hex
-	ExpSupply *big.Int
-	ExpEarn   map[string]*big.Int // expected delta of provider earnings by provider hex
-	ExpOwnEarn map[string]*big.Int
-	ExpDeposit map[string]*big.Int // expected post deposit by binding key (svc|provhex); only for touched bindings
-	ExpAvail  map[string]bool
+	ExpBal         map[string]*big.Int // expected balance delta by address hex
+	ExpSupply      *big.Int
+	ExpEarn        map[string]*big.Int // expected delta of provider earnings by provider hex
+	ExpOwnEarn     map[string]*big.Int
+	ExpDeposit     map[string]*big.Int // expected post deposit by binding key (svc|provhex); only for touched bindings
+	ExpAvail       map[string]bool
 	ExpDisabledNow map[string]bool
-	Slashes   map[string]int // failures per binding in this step
-	Settled   []Settlement
-	Issued    []string
-	Problems  []LedgerProblem
+	Slashes        map[string]int // failures per binding in this step
+	Settled        []Settlement
+	Issued         []string
+	Problems       []LedgerProblem
 }
 
 type LedgerProblem struct {
@@ -174,8 +174,8 @@ func BuildLedger(t *Trans) *Ledger {
 
 	// requests that leave the pending set
 	type gone struct {
-		id      string
-		inPre   bool // was pending in pre (else: appeared and settled within this step)
+		id    string
+		inPre bool // was pending in pre (else: appeared and settled within this step)
 	}
 	var left []gone
 	for _, id := range pre.PendingIDs() {
